@@ -129,7 +129,12 @@ def rule_queue_order(ck):
         cfg = fl.cfg
         sess = f.params[1]
         want = f"self._sort_fn({sess}, self.interface)"
-        loops = [n for n in cfg.nodes if n.kind == "for"]
+        def allocates(lp):
+            reg = cfg.loop_region(lp)
+            return any(n.kind == "stmt" and isinstance(n.stmt, (ast.Assign, ast.AugAssign)) and any(
+                isinstance(t, ast.Subscript) and dotted(t.value) in ("schedule", "allowable_pilots", "rate_idx")
+                for t in (n.stmt.targets if isinstance(n.stmt, ast.Assign) else [n.stmt.target])) for n in reg)
+        loops = [n for n in cfg.nodes if n.kind == "for" and allocates(n)]
         ck.floor("C08.R2", len(loops), 1 if kind == "rr" else 2, f"session loops in {q}")
         for lp in loops:
             it = _canon(fl.expand(lp.stmt.iter, lp))
